@@ -63,7 +63,10 @@ func (u *Unit) checkFrame(ct *Contract, r retInfo, alloc0 Term, penv *Env) {
 		names = append(names, n)
 	}
 	// heaps a callee's frame names and nothing here has looked at
-	for n := range r.st.pending {
+	for n, tag := range r.st.pending {
+		if tag == "" {
+			continue // exempt from every call so far: still the entry version
+		}
 		if _, known := u.heapSort[n]; known {
 			if _, ok := r.st.heaps[n]; !ok {
 				u.heapNow(r.st, n)
